@@ -3,7 +3,7 @@ From Resolvo Require Import Spec.Oracle Cdcl.CheckRun.
 
 (* validity with exactly the documented exemption (= C01 for problems with soft requirements) *)
 Theorem C14_valid : forall u P lg sol,
-  check_sat_log_lenient u P lg sol = true -> valid (table_provider u) P sol (exempt P sol).
+  check_sat_log_lenient u P lg sol = true -> valid (table_provider u) P sol (exempt (table_provider u) P sol).
 Proof. exact sat_log_valid. Qed.
 
 (* adding soft requirements never turns a solvable problem into an (acceptably
@@ -19,14 +19,14 @@ Proof. exact o_solvable_spec. Qed.
 
 (* the acceptance oracle only expects x when a consistent, supported,
    first-choice-closed selection containing x exists *)
-Theorem C14_accept_oracle_sound : forall fuel u P softs G r x G',
-  soft_expect fuel u P G softs = Some r -> In (x, G') r ->
+Theorem C14_accept_oracle_sound : forall fuel u P obs softs G r x G',
+  soft_expect fuel u P obs G softs = Some r -> In (x, G') r ->
   In x softs /\ soft_step_ok u P G' x = true.
 Proof. exact soft_expect_sound. Qed.
 
 Theorem C14_accept_step_meaning : forall u P G x,
   soft_step_ok u P G x = true ->
-  In x G /\ valid (table_provider u) P G [] /\ supported (table_provider u) P G /\
+  In x G /\ valid (table_provider u) P G (exempt (table_provider u) P G) /\ supported (table_provider u) P G /\
   (forall r, all_reqs (table_provider u) P G r ->
      exists f, first_choice (table_provider u) r = Some f /\ In f G /\
                forall s, In s G -> cand_of (table_provider u) r s -> s = f).
